@@ -495,8 +495,23 @@ class Representation(ObjectWithFields):
         timing = self._timing
         if timing.mode != 'live':
             if segment_num is None:
-                st = segment_time + (self.segment_duration >> 2)
-                segment_num = int(st // self.segment_duration) + self.start_number
+                # find the segment that starts nearest to this time. The
+                # segments of a track do not all have the same duration
+                # so the time can't be divided by the nominal duration
+                # (a time at or beyond the end of the track selects the
+                # number after the last segment)
+                segment_num = self.start_number + self.num_media_segments
+                start = 0
+                for idx, seg in enumerate(self.segments[1:]):
+                    end = start + seg.duration
+                    if segment_time < end:
+                        if (
+                                (end - segment_time) < (segment_time - start) and
+                                idx + 1 < self.num_media_segments):
+                            idx += 1
+                        segment_num = self.start_number + idx
+                        break
+                    start = end
             mod_segment = 1 + segment_num - self.start_number
             return SegmentNumberAndTime(segment_num, mod_segment, 0)
 
